@@ -95,6 +95,10 @@ func (r *Runner) Evaluate(sc Scenario, pushedPlain map[int]bool) {
 	for _, p := range out.Panics {
 		c.Fail(strings.ToLower(r.Opt.Prop)+"-panic", line, p)
 	}
+	if out.Retries > 0 {
+		c.Count("harness.barrier-resent")
+		c.Note("harness: %d channel barrier(s) re-sent in %s", out.Retries, line)
+	}
 	init := out.World.InitialSnapshot()
 	v3 := CheckC03(out.World, out.Trace, init)
 	v2 := CheckC02(out.World, out.Trace, pushedPlain, nil, init)
@@ -227,7 +231,7 @@ func (r *Runner) restart(sc Scenario, first Outcome, i int, line string) {
 	}
 	seen := map[string]bool{}
 	for _, en := range out.World.Log {
-		if en.Kind == KPlain || en.IsMarker() || before[en.ID] || after[en.ID] || tl[en.Seq()] || en.Pos <= initialOf(out.World, en.Seq()) {
+		if en.Kind == KPlain || en.Soft() || before[en.ID] || after[en.ID] || tl[en.Seq()] || en.Pos <= initialOf(out.World, en.Seq()) {
 			continue
 		}
 		key := "c03-restart-lost-update"
@@ -450,6 +454,11 @@ func Fixed() []Scenario {
 		// a marker in order, a marker lost (recovered by the difference's state), a late marker (outdated)
 		{P0: 10, Q0: 0, C0: map[int64]int{5: 5}, Log: []Entry{{ID: 1, Kind: KAff, Pos: 11, Count: 1}, {ID: 2, Kind: KMsg, Pos: 12, Count: 1}, {ID: 3, Kind: KAff, Pos: 13, Count: 1}, {ID: 4, Kind: KChAff, Chan: 5, Pos: 7, Count: 2}, {ID: 5, Kind: KChMsg, Chan: 5, Pos: 8, Count: 1}},
 			Actions: []Action{{Op: "a", IDs: []int{1}}, {Op: "p", IDs: []int{2}}, {Op: "e", N: 3}, {Op: "T"}, {Op: "a", IDs: []int{3}}, {Op: "CT", C: 5}, {Op: "a", IDs: []int{4}}}},
+		// updates that cover no position (count 0): pushed in order, lost and carried by a common and a
+		// channel difference in the middle of what the difference covers
+		{P0: 10, Q0: 0, C0: map[int64]int{5: 5}, Log: []Entry{{ID: 1, Kind: KOther, Pos: 10, Count: 0}, {ID: 2, Kind: KMsg, Pos: 11, Count: 1}, {ID: 3, Kind: KOther, Pos: 11, Count: 0}, {ID: 4, Kind: KMsg, Pos: 12, Count: 1},
+			{ID: 5, Kind: KChMsg, Chan: 5, Pos: 6, Count: 1}, {ID: 6, Kind: KChOther, Chan: 5, Pos: 6, Count: 0}, {ID: 7, Kind: KChMsg, Chan: 5, Pos: 7, Count: 1}},
+			Actions: []Action{{Op: "p", IDs: []int{1}}, {Op: "e", N: 7}, {Op: "T"}, {Op: "CT", C: 5}}},
 		// a gap filled by a late arrival; a duplicate; sliced recovery
 		{P0: 10, Q0: 0, C0: map[int64]int{}, Log: []Entry{{ID: 1, Kind: KMsg, Pos: 11, Count: 1}, {ID: 2, Kind: KOther, Pos: 13, Count: 2}, {ID: 3, Kind: KMsg, Pos: 14, Count: 1}, {ID: 4, Kind: KMsg, Pos: 15, Count: 1}},
 			Actions: []Action{{Op: "p", IDs: []int{2}}, {Op: "p", IDs: []int{1}}, {Op: "p", IDs: []int{1}}, {Op: "e", N: 2}, {Op: "sl", N: 1}, {Op: "T"}}},
